@@ -1,0 +1,51 @@
+//go:build verif
+
+// Contracts for the acv verifier (/verif). Comment-only file: no executable code.
+
+package masking
+
+// Settings are validated when the configuration is loaded (masking/common.ValidateMaskingParams, proved below
+// in its own package): the plaintext window length is never negative. Assumed here at the interface.
+//@ package github.com/cossacklabs/acra/encryptor/base/config
+//@ assume func (s ColumnEncryptionSetting) GetPartialPlaintextLen() (n int)
+//@   ensures 0 <= n
+//@   modifies nothing
+//@ assume func (s ColumnEncryptionSetting) GetMaskingPattern() (p string)
+//@   modifies nothing
+//@ assume func (s ColumnEncryptionSetting) IsEndMasking() (b bool)
+//@   modifies nothing
+//@ package github.com/cossacklabs/acra/masking
+
+//@ func (e *DataEncryptor) encryptByFunction(context []byte, data []byte, settingCE config.ColumnEncryptionSetting, encryptionFunc encryptionFunction) (out []byte, err error)
+//@   props C11 C14
+//@   safety
+//@   at call dynamic.encryptionFunc : assert sameslice(arg[0], context)
+//@   ensures whole-when-short: called(dynamic.encryptionFunc#0) ==> sameslice(argof(dynamic.encryptionFunc#0)[1], data) && ret(ColumnEncryptionSetting.GetPartialPlaintextLen)[0] >= len(data)
+//@   ensures left-hidden-only: called(dynamic.encryptionFunc#1) ==> sameslice(argof(dynamic.encryptionFunc#1)[1], data[ret(ColumnEncryptionSetting.GetPartialPlaintextLen)[0]:]) && ret(ColumnEncryptionSetting.IsEndMasking)[0]
+//@   ensures right-hidden-only: called(dynamic.encryptionFunc#2) ==> sameslice(argof(dynamic.encryptionFunc#2)[1], data[0:len(data)-ret(ColumnEncryptionSetting.GetPartialPlaintextLen)[0]]) && !ret(ColumnEncryptionSetting.IsEndMasking)[0]
+//@   ensures left-layout: err == nil && called(dynamic.encryptionFunc#1) && fresh(ret(dynamic.encryptionFunc#1)[0]) ==> len(out) == ret(ColumnEncryptionSetting.GetPartialPlaintextLen)[0] + len(ret(dynamic.encryptionFunc#1)[0]) && forall(i, 0, len(ret(dynamic.encryptionFunc#1)[0]), out[ret(ColumnEncryptionSetting.GetPartialPlaintextLen)[0] + i] == ret(dynamic.encryptionFunc#1)[0][i])
+//@   ensures left-window: err == nil && called(dynamic.encryptionFunc#1) ==> forall(i, 0, ret(ColumnEncryptionSetting.GetPartialPlaintextLen)[0], out[i] == old(data[i]))
+//@   ensures right-layout: err == nil && called(dynamic.encryptionFunc#2) && fresh(ret(dynamic.encryptionFunc#2)[0]) ==> len(out) == len(ret(dynamic.encryptionFunc#2)[0]) + ret(ColumnEncryptionSetting.GetPartialPlaintextLen)[0]
+//@   ensures right-window: err == nil && called(dynamic.encryptionFunc#2) && fresh(ret(dynamic.encryptionFunc#2)[0]) ==> forall(i, 0, ret(ColumnEncryptionSetting.GetPartialPlaintextLen)[0], out[len(ret(dynamic.encryptionFunc#2)[0]) + i] == old(data[len(data) - ret(ColumnEncryptionSetting.GetPartialPlaintextLen)[0] + i]))
+//@   ensures masking-on-means-protected: err == nil && ret(ColumnEncryptionSetting.GetMaskingPattern)[0] != "" ==> called(dynamic.encryptionFunc#0) || called(dynamic.encryptionFunc#1) || called(dynamic.encryptionFunc#2)
+
+//@ func (m *masker) Mask(data []byte, dataManipulator DataManipulator, plaintextLength int, side common.PlainTextSide) (out []byte, err error)
+//@   props C11 C14
+//@   safety
+//@   requires 0 <= plaintextLength
+//@   ensures left-hidden-only: called(DataManipulator.ChangeData#0) ==> sameslice(argof(DataManipulator.ChangeData#0)[0], data[plaintextLength:])
+//@   ensures right-hidden-only: called(DataManipulator.ChangeData#1) ==> sameslice(argof(DataManipulator.ChangeData#1)[0], data[0:len(data)-plaintextLength])
+//@   ensures on-error: err != nil ==> out == nil
+
+//@ func (m *masker) Unmask(data []byte, dataManipulator DataManipulator, plaintextLength int, maskingPattern []byte, side common.PlainTextSide) (out []byte, err error)
+//@   props C11 C14
+//@   safety
+//@   requires 0 <= plaintextLength
+//@   ensures left-on-error: err != nil && called(DataManipulator.UnchangeData#0) && !sameregion(maskingPattern, data) ==> len(out) == plaintextLength + len(maskingPattern) && forall(i, 0, len(maskingPattern), out[plaintextLength + i] == maskingPattern[i])
+//@   ensures right-on-error: err != nil && called(DataManipulator.UnchangeData#1) ==> len(out) == len(maskingPattern) + plaintextLength
+
+//@ func (processor *Processor) Process(data []byte, context *base.DataProcessorContext) (out []byte, err error)
+//@   props C11 C14
+//@   safety
+//@   ensures pattern-when-undecryptable: called(EncryptionSettingFromContext) && ret(EncryptionSettingFromContext)[1] && ret(ColumnEncryptionSetting.GetMaskingPattern#0)[0] != "" && ret(ExtendedDataProcessor.Process#0)[1] != nil ==> err == nil && fresh(out) && len(out) == len(ret(ColumnEncryptionSetting.GetMaskingPattern#1)[0])
+//@   at call ExtendedDataProcessor.Process : assert sameslice(arg[0], data) && arg[1] == context
